@@ -80,6 +80,11 @@ Member(n)      == On("member") /\ Room /\ Item(<<"member", n>>) /\ UNCHANGED <<e
 Tag(n)         == On("tag") /\ Room /\ Item(<<"tag", n>>) /\ UNCHANGED <<env, where, funcs>> /\ SameD
 Label(n)       == /\ On("label") /\ Room /\ where > 0 /\ Item(<<"label", n>>) /\ UNCHANGED <<env, where, funcs, envD>>
                   /\ rej' = (rej \/ IsTypeD(n))                                         \* DevTypeidNotAName
+\* ---- constructs with braces that open no scope for ordinary identifiers, and speculatively parsed constructs
+\* (struct / union bodies inside type names of casts, sizeof and compound literals, initializer braces, enum and
+\* struct definitions): nothing is bound, nothing is hidden - whatever the mechanism does while reading them
+\* (which of them is the renderer's choice: they are all the same step of this machine)
+Noise          == On("noise") /\ Room /\ Item(<<"noise">>) /\ UNCHANGED <<env, where, funcs>> /\ SameD
 \* ---- prototype scope ends with the declarator (6.2.1p4): nothing is bound afterwards
 ProtoParam(n)  == On("proto") /\ Room /\ Item(<<"proto", n>>) /\ UNCHANGED <<env, where, funcs>> /\ SameD
 \* ---- a for-init declaration's scope is the loop only (6.8.5p5): nothing is bound afterwards
@@ -125,7 +130,7 @@ Probe(n)       == Room /\ Item(<<"probe", n, IsType(n), IsTypeD(n)>>) /\ UNCHANG
 Next == \/ \E n \in Names : \/ TypedefDecl(n) \/ ObjDecl(n) \/ FuncDecl(n) \/ EnumConst(n) \/ EnumPair(n) \/ EnumInStruct(n)
                             \/ Member(n) \/ Tag(n) \/ Label(n) \/ ProtoParam(n) \/ ForInit(n)
                             \/ ProbeInInit(n) \/ ProbeInStruct(n) \/ OpenFunc(n) \/ OpenFuncNamed(n) \/ OpenKRFunc(n) \/ Probe(n)
-        \/ OpenFuncNoPar \/ OpenBlock \/ Close
+        \/ OpenFuncNoPar \/ OpenBlock \/ Close \/ Noise
 Spec == Init /\ [][Next]_vars
 
 \* ---- properties of the specification itself
